@@ -22,19 +22,20 @@ const modPath = "github.com/go-openapi/runtime"
 
 // Prog is the loaded program.
 type Prog struct {
-	Dir    string
-	Fset   *token.FileSet
-	Pkgs   []*packages.Package
-	ByPath map[string]*packages.Package
-	SSA    *ssa.Program
-	SPkg   map[string]*ssa.Package
-	allTy  map[string]*types.Package // every types.Package reachable through imports
-	Cfg    string                    // description of the build configuration
-	fnIdx  map[string]*ssa.Function  // short name -> function (repo functions incl. anonymous)
-	allFns []*ssa.Function           // every repo function with a body (incl. anonymous, incl. instantiations)
-	astFn  map[*ssa.Function]ast.Node
-	cg     *callgraph.Graph
-	ti     *transInfo
+	Dir      string
+	Fset     *token.FileSet
+	Pkgs     []*packages.Package
+	ByPath   map[string]*packages.Package
+	SSA      *ssa.Program
+	SPkg     map[string]*ssa.Package
+	allTy    map[string]*types.Package // every types.Package reachable through imports
+	Cfg      string                    // description of the build configuration
+	fnIdx    map[string]*ssa.Function  // short name -> function (repo functions incl. anonymous)
+	ntStores map[string][]ssa.Value
+	allFns   []*ssa.Function // every repo function with a body (incl. anonymous, incl. instantiations)
+	astFn    map[*ssa.Function]ast.Node
+	cg       *callgraph.Graph
+	ti       *transInfo
 }
 
 type toolError struct{ msg string }
@@ -214,6 +215,9 @@ func (p *Prog) index() {
 // An unresolved anchor is a tool error (undecided), never a verdict.
 func (p *Prog) Fn(name string) *ssa.Function {
 	f := p.fnIdx[name]
+	if f == nil && p.ti != nil {
+		f = p.ti.byOldName[name]
+	}
 	if f == nil {
 		f = p.lenientFn(name)
 	}
@@ -224,7 +228,15 @@ func (p *Prog) Fn(name string) *ssa.Function {
 }
 
 // FnOpt is Fn without the failure.
-func (p *Prog) FnOpt(name string) *ssa.Function { return p.fnIdx[name] }
+func (p *Prog) FnOpt(name string) *ssa.Function {
+	if f := p.fnIdx[name]; f != nil {
+		return f
+	}
+	if p.ti != nil {
+		return p.ti.byOldName[name]
+	}
+	return nil
+}
 
 // TypesPkg returns the types.Package of any package reachable through imports.
 func (p *Prog) TypesPkg(path string) *types.Package {
@@ -445,5 +457,100 @@ func fieldNameOf(n *types.Named, st *types.Struct, idx int) string {
 	if cur == 1 && len(gone) == 1 {
 		return gone[0]
 	}
+	// renamed AND re-typed (e.g. io.ReadCloser narrowed to io.Closer): the one unknown field of a struct that lost
+	// exactly one baseline field
+	var goneAny, curAny []string
+	for k := range fieldInventory {
+		if strings.HasPrefix(k, tn+".") {
+			f := strings.TrimPrefix(k, tn+".")
+			if !strings.Contains(f, ".") && !have[f] {
+				goneAny = append(goneAny, f)
+			}
+		}
+	}
+	for i := 0; i < st.NumFields(); i++ {
+		if _, known := fieldInventory[tn+"."+st.Field(i).Name()]; !known {
+			curAny = append(curAny, st.Field(i).Name())
+		}
+	}
+	if len(goneAny) == 1 && len(curAny) == 1 && curAny[0] == name {
+		return goneAny[0]
+	}
 	return name
+}
+
+// flatSig renders a function's signature with the receiver as first parameter (so that a method and the function it
+// was turned into compare equal).
+func flatSig(f *ssa.Function) string {
+	var ps []string
+	for _, p := range f.Params {
+		ps = append(ps, typeStr(p.Type()))
+	}
+	var rs []string
+	res := f.Signature.Results()
+	for i := 0; i < res.Len(); i++ {
+		rs = append(rs, typeStr(res.At(i).Type()))
+	}
+	v := ""
+	if f.Signature.Variadic() {
+		v = "..."
+	}
+	return "(" + strings.Join(ps, ", ") + v + ") (" + strings.Join(rs, ", ") + ")"
+}
+
+// isNewType: the named struct type does not exist in the baseline (none of its fields is in the field inventory).
+func isNewType(n *types.Named) bool {
+	if n == nil || len(fieldInventory) == 0 || n.Obj() == nil || n.Obj().Pkg() == nil || !isRepoPath(n.Obj().Pkg().Path()) || isFixturePkg(n.Obj().Pkg().Path()) {
+		return false
+	}
+	prefix := typeFullName(n) + "."
+	for k := range fieldInventory {
+		if strings.HasPrefix(k, prefix) {
+			return false
+		}
+	}
+	return true
+}
+
+// methodOf returns the SSA function of method name on *n (or n).
+func (p *Prog) methodOf(n *types.Named, name string) *ssa.Function {
+	for _, t := range []types.Type{types.NewPointer(n), n} {
+		ms := p.SSA.MethodSets.MethodSet(t)
+		for i := 0; i < ms.Len(); i++ {
+			if ms.At(i).Obj().Name() == name {
+				return p.SSA.MethodValue(ms.At(i))
+			}
+		}
+	}
+	return nil
+}
+
+// newTypeFieldStores: the values stored into field `field` of the new (non-baseline) struct type tn anywhere in the
+// library — the flow-insensitive meaning of "a load of that field" for types that replaced a function literal's
+// captured variables.
+func (p *Prog) newTypeFieldStores(tn, field string) []ssa.Value {
+	if p.ntStores == nil {
+		p.ntStores = map[string][]ssa.Value{}
+		for _, f := range p.LibFuncs() {
+			for _, b := range f.Blocks {
+				for _, in := range b.Instrs {
+					st, ok := in.(*ssa.Store)
+					if !ok {
+						continue
+					}
+					fa, ok := st.Addr.(*ssa.FieldAddr)
+					if !ok {
+						continue
+					}
+					n, stt := structOf(fa.X.Type())
+					if n == nil || stt == nil || !isNewType(n) {
+						continue
+					}
+					k := typeFullName(n) + "." + stt.Field(fa.Field).Name()
+					p.ntStores[k] = append(p.ntStores[k], st.Val)
+				}
+			}
+		}
+	}
+	return p.ntStores[tn+"."+field]
 }
